@@ -59,10 +59,23 @@ class KA:
 
   def __init__(self, kt):
     self.kt = kt
+    self.stack = []  # conditions under which the reference is currently reading
+    self.reads = []  # (guard, in-shape condition) of every read of the reference
+
+  def push(self, c):
+    self.stack.append(c)
+
+  def pop(self):
+    self.stack.pop()
 
   def v(self, label, *idx):
     x = self.kt.prev(label, *idx)
+    self.reads.append(Implies(And(*self.stack), self.kt.inshape(label, *idx)))
     return list(x.c) if isinstance(x, Vec) else x
+
+  def wellformed(self):
+    """the ids the reference dereferences exist (only under the object-type condition that selects the read)"""
+    return [core.zbool(r) for r in self.reads if r is not True]
 
   def vb(self, label, w, *idx):
     """per-world batched Model field: world w reads row w % shape[0]"""
@@ -74,6 +87,12 @@ class NA:
 
   def __init__(self, mjm, mjd, extra=None):
     self.mjm, self.mjd, self.extra = mjm, mjd, extra or {}
+
+  def push(self, c):
+    pass
+
+  def pop(self):
+    pass
 
   def arr(self, label):
     if label in self.extra:
@@ -117,37 +136,49 @@ def KI(a, label, *idx):
 # ------------------------------------------------------------------------------------------------ reference sensors
 
 
-def by_obj(t, cases, default):
+def by_obj(a, t, cases, default):
+  """cases: object type -> thunk.  A concrete type evaluates only its own thunk; a symbolic one all of them, each under
+  its selecting condition (recorded by the accessor for the well-formedness precondition)."""
+  if not is_sym(t):
+    return cases[int(t)]() if int(t) in cases else default
   r = default
   for k in reversed(OBJS):
-    r = vite(cmp("==", t, k), cases[k], r) if isinstance(default, list) else ite(cmp("==", t, k), cases[k], r)
+    c = cmp("==", t, k)
+    a.push(c)
+    val = cases[k]()
+    a.pop()
+    r = vite(c, val, r) if isinstance(default, list) else ite(c, val, r)
   return r
 
 
 def r_pos(a, w, t, i):
-  return by_obj(t, {OBJ_BODY: a.v("xipos_in", w, i), OBJ_XBODY: a.v("xpos_in", w, i), OBJ_GEOM: a.v("geom_xpos_in", w, i), OBJ_SITE: a.v("site_xpos_in", w, i), OBJ_CAMERA: a.v("cam_xpos_in", w, i)}, [0.0] * 3)
+  return by_obj(a, t, {OBJ_BODY: lambda: a.v("xipos_in", w, i), OBJ_XBODY: lambda: a.v("xpos_in", w, i), OBJ_GEOM: lambda: a.v("geom_xpos_in", w, i), OBJ_SITE: lambda: a.v("site_xpos_in", w, i), OBJ_CAMERA: lambda: a.v("cam_xpos_in", w, i)}, [0.0] * 3)
 
 
 def r_mat(a, w, t, i):
   eye = [1.0, 0.0, 0.0, 0.0, 1.0, 0.0, 0.0, 0.0, 1.0]
-  return by_obj(t, {OBJ_BODY: a.v("ximat_in", w, i), OBJ_XBODY: a.v("xmat_in", w, i), OBJ_GEOM: a.v("geom_xmat_in", w, i), OBJ_SITE: a.v("site_xmat_in", w, i), OBJ_CAMERA: a.v("cam_xmat_in", w, i)}, eye)
+  return by_obj(a, t, {OBJ_BODY: lambda: a.v("ximat_in", w, i), OBJ_XBODY: lambda: a.v("xmat_in", w, i), OBJ_GEOM: lambda: a.v("geom_xmat_in", w, i), OBJ_SITE: lambda: a.v("site_xmat_in", w, i), OBJ_CAMERA: lambda: a.v("cam_xmat_in", w, i)}, eye)
 
 
 def r_bodyid(a, t, i):
-  return by_obj(t, {OBJ_BODY: i, OBJ_XBODY: i, OBJ_GEOM: KI(a, "geom_bodyid", i), OBJ_SITE: KI(a, "site_bodyid", i), OBJ_CAMERA: KI(a, "cam_bodyid", i)}, 0)
+  return by_obj(a, t, {OBJ_BODY: lambda: i, OBJ_XBODY: lambda: i, OBJ_GEOM: lambda: KI(a, "geom_bodyid", i), OBJ_SITE: lambda: KI(a, "site_bodyid", i), OBJ_CAMERA: lambda: KI(a, "cam_bodyid", i)}, 0)
+
+
+QL = {"mulq": sl.tb_mul_quat, "conj": sl.tb_conj}  # quaternion leaves used by the reference (exact textbook by default)
 
 
 def r_quat(a, w, t, i):
   """get_xquat: body inertial frame = xquat * body_iquat; geom / site / camera = xquat[parent body] * local quat"""
   xq = lambda b: a.v("xquat_in", w, b)
   return by_obj(
+    a,
     t,
     {
-      OBJ_BODY: sl.tb_mul_quat(xq(i), a.vb("body_iquat", w, i)),
-      OBJ_XBODY: xq(i),
-      OBJ_GEOM: sl.tb_mul_quat(xq(KI(a, "geom_bodyid", i)), a.vb("geom_quat", w, i)),
-      OBJ_SITE: sl.tb_mul_quat(xq(KI(a, "site_bodyid", i)), a.vb("site_quat", w, i)),
-      OBJ_CAMERA: sl.tb_mul_quat(xq(KI(a, "cam_bodyid", i)), a.vb("cam_quat", w, i)),
+      OBJ_BODY: lambda: QL['mulq'](xq(i), a.vb("body_iquat", w, i)),
+      OBJ_XBODY: lambda: xq(i),
+      OBJ_GEOM: lambda: QL['mulq'](xq(KI(a, "geom_bodyid", i)), a.vb("geom_quat", w, i)),
+      OBJ_SITE: lambda: QL['mulq'](xq(KI(a, "site_bodyid", i)), a.vb("site_quat", w, i)),
+      OBJ_CAMERA: lambda: QL['mulq'](xq(KI(a, "cam_bodyid", i)), a.vb("cam_quat", w, i)),
     },
     [1.0, 0.0, 0.0, 0.0],
   )
@@ -185,16 +216,23 @@ def ref_sensor(a, S, stype, w, objid, objtype, refid, reftype):
     return [a.v("energy_in", w)[1]]
   if stype == S.FRAMEPOS:
     pos = r_pos(a, w, objtype, objid)
+    a.push(hasref)
     rel = matTvec(r_mat(a, w, reftype, refid), EX.sub(pos, r_pos(a, w, reftype, refid)))
+    a.pop()
     return vite(hasref, rel, pos)
   if stype in (S.FRAMEXAXIS, S.FRAMEYAXIS, S.FRAMEZAXIS):
     ax = int(stype) - int(S.FRAMEXAXIS)
     M = r_mat(a, w, objtype, objid)
     axis = [M[ax], M[3 + ax], M[6 + ax]]
-    return vite(hasref, matTvec(r_mat(a, w, reftype, refid), axis), axis)
+    a.push(hasref)
+    rel = matTvec(r_mat(a, w, reftype, refid), axis)
+    a.pop()
+    return vite(hasref, rel, axis)
   if stype == S.FRAMEQUAT:
     q = r_quat(a, w, objtype, objid)
-    rel = sl.tb_mul_quat(sl.tb_conj(r_quat(a, w, reftype, refid)), q)
+    a.push(hasref)
+    rel = QL["mulq"](QL["conj"](r_quat(a, w, reftype, refid)), q)
+    a.pop()
     return vite(hasref, rel, q)
   if stype == S.JOINTVEL:
     return [a.v("qvel_in", w, KI(a, "jnt_dofadr", objid))]
@@ -214,13 +252,17 @@ def ref_sensor(a, S, stype, w, objid, objtype, refid, reftype):
     return matTvec(a.v("site_xmat_in", w, objid), lin if stype == S.VELOCIMETER else ang)
   if stype in (S.FRAMELINVEL, S.FRAMEANGVEL):
     ang, lin = r_objvel(a, w, objtype, objid)
+    a.push(cmp(">", refid, -1))
     angr, linr = r_objvel(a, w, reftype, refid)
     Mr = r_mat(a, w, reftype, refid)
     if stype == S.FRAMEANGVEL:
-      return vite(cmp(">", refid, -1), matTvec(Mr, EX.sub(ang, angr)), ang)
+      rel = matTvec(Mr, EX.sub(ang, angr))
+      a.pop()
+      return vite(cmp(">", refid, -1), rel, ang)
     rvec = EX.sub(r_pos(a, w, objtype, objid), r_pos(a, w, reftype, refid))
-    rel = EX.add(EX.sub(lin, linr), EX.cross(rvec, angr))
-    return vite(cmp(">", refid, -1), matTvec(Mr, rel), lin)
+    rel = matTvec(Mr, EX.add(EX.sub(lin, linr), EX.cross(rvec, angr)))
+    a.pop()
+    return vite(cmp(">", refid, -1), rel, lin)
   if stype == S.ACTUATORFRC:
     return [a.v("actuator_force_in", w, objid)]
   if stype == S.JOINTACTFRC:
@@ -375,6 +417,12 @@ def const_int_array(name, val):
   return core.ArrRef(c)
 
 
+def const_real_array(name, val):
+  c = core.Cell(name, [z3.Int(name + ".shape0")], "real", mode="array")
+  c.a = [z3.K(z3.IntSort(), z3.RealVal(val))]
+  return core.ArrRef(c)
+
+
 def np_accessor_from_pre(pre):
   class PA(NA):
     def __init__(self):
@@ -394,7 +442,7 @@ def np_accessor_from_pre(pre):
 
     def vb(self, label, w, *idx):
       a = pre[label]
-      return self.v(label, int(w) % a.shape[0], *idx)
+      return self.v(label, int(w) % max(a.shape[0], 1), *idx)
 
     def vi(self, label, *idx):
       try:
@@ -417,9 +465,11 @@ def goal_sensor(spec, pre, post):
   g = lambda lab: int(pre[lab][sid]) if lab in pre else 0
   raw = ref_sensor(a, S, stype, w, objid, g("sensor_objtype"), g("sensor_refid"), g("sensor_reftype"))
   adr = int(pre["sensor_adr"][sid])
-  want = np.array([ref_cutoff(int(stype), int(pre["sensor_datatype"][sid]), float(pre["sensor_cutoff"][sid]), x, int(S.GEOMFROMTO)) for x in raw], dtype=float)
+  at = lambda lab, d: pre[lab][sid] if sid < len(pre[lab]) else d  # arrays the thread never read may be empty in the model
+  dt, cut = int(at("sensor_datatype", 0)), float(at("sensor_cutoff", 0.0))
+  want = np.array([ref_cutoff(int(stype), dt, cut, x, int(S.GEOMFROMTO)) for x in raw], dtype=float)
   got = post["sensordata_out"][w, adr : adr + len(want)].astype(float)
-  return bool(np.allclose(got, want, rtol=1e-3, atol=1e-4)), f"{stype.name} sensor {sid} (objtype {g('sensor_objtype')} reftype {g('sensor_reftype')} refid {g('sensor_refid')} cutoff {pre['sensor_cutoff'][sid]}): sensordata {got.tolist()} expected {want.tolist()}"
+  return bool(np.allclose(got, want, rtol=1e-3, atol=1e-4)), f"{stype.name} sensor {sid} (objtype {g('sensor_objtype')} reftype {g('sensor_reftype')} refid {g('sensor_refid')} cutoff {cut}): sensordata {got.tolist()} expected {want.tolist()}"
 
 
 def unit_sensor(stage, tname):
@@ -432,8 +482,24 @@ def unit_sensor(stage, tname):
     k = getattr(sensor, kname)
     ctx.encode(k, sensor._write_scalar, sensor._write_vector)
     ctx.bound(unroll=2, shape_cap=6, note="one generic thread; sensor type fixed, all other inputs symbolic; exact reals")
-    ctx.assume("own accesses in bounds (C17)", "object / reference types in {body, xbody, geom, site, camera} (MuJoCo compiler)", "sensor slots do not overlap (sensor_adr layout): the components of one sensor are distinct cells")
-    kt = lib.kernel_thread(k, scalars={"sensor_type": const_int_array("sensor_type", int(stype))}, unroll=2)
+    ctx.assume("own accesses in bounds (C17)", "object / reference types in {body, xbody, geom, site, camera} (MuJoCo compiler)", "the object / reference ids of the sensor exist (the reference model's own reads are inside the arrays, under the object-type condition that selects them)")
+    ikw = {}
+    if tname == "FRAMEQUAT":
+      # quaternion products are degree-4 polynomials: compare the composition structure with mul_quat / quat_inv as shared
+      # uninterpreted functions (each is proved equal to its textbook definition in C01 unit leaf)
+      from mujoco_warp._src import math as mm
+
+      L = sl.UFLeaves()
+      R_ = z3.RealSort()
+      conj_uf = lambda q: [z3.Function(f"quat_inv#{k_}", R_, R_, R_, R_, R_)(*[core.to_z3(x, "real") for x in q]) for k_ in range(4)]
+      summ = L.summaries(("mul_quat",))
+      summ[mm.quat_inv.key] = lambda it, fr, args: Vec(conj_uf(list(args[0].c)), (4,), "quat")
+      ikw = {"summaries": summ}
+      QL["mulq"], QL["conj"] = L.mulq, conj_uf
+      ctx.assume("FRAMEQUAT: mul_quat / quat_inv are shared uninterpreted functions (leaf lemmas: C01 unit leaf)")
+    kt = lib.kernel_thread(k, scalars={"sensor_type": const_int_array("sensor_type", int(stype))}, unroll=2, interp_kw=ikw)
+    # the same thread over the same symbolic arrays with the cutoff switched off: exposes the value handed to the write helper
+    kt0 = lib.kernel_thread(k, scalars={"sensor_type": const_int_array("sensor_type", int(stype)), "sensor_cutoff": const_real_array("sensor_cutoff", 0.0)}, unroll=2, interp_kw=ikw)
     w, tidx = kt.tid
     a = KA(kt)
     sid = kt.pre(adr_label, tidx)
@@ -449,24 +515,40 @@ def unit_sensor(stage, tname):
       names["refid"] = refid
     loc = f"mujoco_warp._src.sensor:{kname}"
     # object / reference types: exhaustive case split by substitution (keeps every query a small polynomial identity)
-    combos = [(ot, rt) for ot in OBJS for rt in OBJS] if (is_sym(objtype) and is_sym(reftype)) else [(None, None)]
+    framed = tname.startswith("FRAME")
+    combos = [(ot, rt) for ot in OBJS for rt in OBJS] if (framed and is_sym(objtype) and is_sym(reftype)) else [(None, None)]
     if ctx.tier != "thorough" and len(combos) > 1:
       ctx.bound(objtype_reftype_pairs="all 25 (object, reference) type pairs")
     for ot, rt in combos:
       sub = [] if ot is None else [(objtype, z3.IntVal(ot)), (reftype, z3.IntVal(rt))]
       S_ = (lambda t: z3.simplify(z3.substitute(core.to_z3(t, "real") if not z3.is_bool(t) else t, *sub))) if sub else (lambda t: t)
-      bg = [z3.substitute(core.zbool(b), *sub) for b in kt.bg] if sub else kt.bg
-      sess = ctx.session(bg)
+      wf = a.wellformed()
+      bg = [z3.substitute(core.zbool(b), *sub) for b in list(kt.bg) + wf] if sub else list(kt.bg) + wf
+      sess = sl.oneshot(ctx, bg)
       tag = "" if ot is None else f"/obj{ot}-ref{rt}"
       ctx.reach(sess, f"twin:thread{tag}", True)
       env = {"stype": int(stype), "adr_label": adr_label, "randomize_floats": 2}
       if sub:
         env["variants"] = [{"__poke__": [["sensor_objtype", [sid], None, ot], ["sensor_reftype", [sid], None, rt]]}]
+      bg0 = [z3.substitute(core.zbool(b), *sub) for b in list(kt0.bg) + wf] if sub else list(kt0.bg) + wf
+      # arrays that the cutoff-free thread never reads still get a slot for this sensor (keeps replays well formed)
+      bg0 = bg0 + [core.zbool(kt0.inshape("sensor_datatype", sid)), core.zbool(kt0.inshape("sensor_cutoff", sid))]
+      sess0 = sl.oneshot(ctx, bg0)
       for i, x in enumerate(raw):
-        want = ref_cutoff(int(stype), dtype, cutoff, x, int(S.GEOMFROMTO))
+        # two steps (their conjunction is the claim  sensordata == cutoff(reference value)):
+        #  raw     value handed to the write helper (thread run with cutoff 0) == reference value   [polynomial identity]
+        #  cutoff  sensordata == apply_cutoff(that same value)                                      [propositional over shared terms]
+        got0 = kt0.post("sensordata_out", w, arith("+", adr, i))
         got = kt.post("sensordata_out", w, arith("+", adr, i))
+        what = f"{' object type %s reference type %s' % (ot, rt) if sub else ''}"
+        if ctx.violations or ctx.errors:
+          ctx.notes.append("remaining object / reference type pairs skipped after the first reproduced violation / harness error")
+          return
+        rp0 = lib.make_replay(ctx, kt0, loc, f"{tname}.{i}{tag.replace('/', '.')}.raw", "goal", goal="checks.c07:goal_sensor", env=env)
         rp = lib.make_replay(ctx, kt, loc, f"{tname}.{i}{tag.replace('/', '.')}", "goal", goal="checks.c07:goal_sensor", env=env)
-        ctx.prove(sess, f"{tname}[{i}]{tag}", S_(got) == S_(want) if sub else cmp("==", got, want), names=names, replay=rp, desc=f"{kname}: {tname} component {i} (after cutoff){' object type %s reference type %s' % (ot, rt) if sub else ''} differs from MuJoCo's value")
+        ctx.prove(sess0, f"{tname}[{i}]{tag}/raw", S_(got0) == S_(x) if sub else cmp("==", got0, x), names=names, replay=rp0, desc=f"{kname}: {tname} component {i}{what} differs from MuJoCo's value")
+        want = ref_cutoff(int(stype), dtype, cutoff, got0, int(S.GEOMFROMTO))
+        ctx.prove(sess, f"{tname}[{i}]{tag}/cutoff", S_(got) == S_(want) if sub else cmp("==", got, want), names=names, replay=rp, desc=f"{kname}: {tname} component {i}{what}: cutoff handling differs from MuJoCo's apply_cutoff")
 
   return (f"{stage}/{tname}", run)
 
@@ -513,6 +595,18 @@ def goal_limit(spec, pre, post):
   return (not wrote) or ok_kind, f"limit sensor {sid} (type {S(st).name}, objid {pre['sensor_objid'][sid]}) was written ({before} -> {after}) from efc row {efcid} of constraint type {ct} id {pre['efc_id_in'][w, efcid]}: wrong object kind"
 
 
+def goal_limit_value(spec, pre, post):
+  S, O, C, T = enums()
+  e = spec["env"]
+  w, efcid, lid = spec["tid"][:3]
+  sid = int(pre[e["adr_label"]][lid])
+  adr = int(pre["sensor_adr"][sid])
+  val = float(pre[e["val_label"]][w, efcid]) - (float(pre["efc_margin_in"][w, efcid]) if e["val_label"] == "efc_pos_in" else 0.0)
+  want = float(ref_cutoff(int(pre["sensor_type"][sid]), int(pre["sensor_datatype"][sid]), float(pre["sensor_cutoff"][sid]), val, int(S.GEOMFROMTO)))
+  got = float(post["sensordata_out"][w, adr])
+  return lib.approx(got, want), f"limit sensor {sid}: sensordata {got} expected {want} (row value {val}, cutoff {pre['sensor_cutoff'][sid]})"
+
+
 def pre_const(pre, label, i):
   return pre[label][i]
 
@@ -548,7 +642,8 @@ def unit_limit(which):
     names = {"w": w, "efcid": efcid, "sensorid": sid, "sensor_type": st, "objid": objid, "efc_type": et, "efc_id": eid, "ne": ne, "nf": nf, "nl": nl}
     loc = f"mujoco_warp._src.sensor:_limit_{which}"
     written = kt.written("sensordata_out", w, adr)
-    ctx.prove(sess, "value", And(written, cmp("==", kt.post("sensordata_out", w, adr), want)), mine, names=names, replay=lambda m: (False, "value query is not replayed"), desc=f"_limit_{which}: the active limit row of the sensor's own joint / tendon does not produce MuJoCo's value")
+    rpv = lib.make_replay(ctx, kt, loc, "value", "goal", goal="checks.c07:goal_limit_value", env={"adr_label": adr_label, "val_label": val_label, "sentinels": {"sensordata_out": -777.0}})
+    ctx.prove(sess, "value", And(written, cmp("==", kt.post("sensordata_out", w, adr), want)), mine, names=names, replay=rpv, desc=f"_limit_{which}: the active limit row of the sensor's own joint / tendon does not produce MuJoCo's value")
     rp = lib.make_replay(ctx, kt, loc, "kind", "goal", goal="checks.c07:goal_limit", env={"adr_label": adr_label, "sentinels": {"sensordata_out": -777.0}})
     ctx.prove(sess, "only-own-object-kind", Not(written), Not(mine), names=names, replay=rp, desc=f"_limit_{which}: a joint-limit sensor is written from a TENDON limit row with the same id (or vice versa): MuJoCo matches the constraint type to the sensor type")
 
@@ -580,7 +675,7 @@ def unit_tendonactfrc(ctx):
   adr = kt.pre("sensor_adr", sid)
   trn = kt.prev("actuator_trnid", actid)
   match = And(cmp("==", kt.pre("actuator_trntype", actid), int(T.TENDON)), cmp("==", trn.c[0], kt.pre("sensor_objid", sid)))
-  sess = ctx.session(kt.bg)
+  sess = ctx.session(kt.bg + [core.zbool(kt.inshape("actuator_trntype", actid)), core.zbool(kt.inshape("actuator_trnid", actid))])
   ctx.reach(sess, "twin:matching-actuator", match)
   want = ite(match, kt.pre("actuator_force_in", w, actid), 0.0)
   rp = lib.make_replay(ctx, kt, "mujoco_warp._src.sensor:_tendon_actuator_force", "sum", "goal", goal="checks.c07:goal_tenactfrc")
@@ -621,37 +716,94 @@ def poly_pot(k, p, x):
   return arith("+", r, arith("*", arith("*", p[1], arith("*", x3, x)), 0.25))
 
 
-def ref_energy_pos(mjm, p, w, grav, quat_sub=None):
-  """mj_energyPos: -sum_b mass_b gravity.xipos_b + joint springs + tendon springs (dead band [lower, upper])"""
-  e = 0.0
+def ref_energy_parts(mjm, p, w, grav, quat_sub=None, o=EX, sqr=lambda t: t):
+  """mj_energyPos, term by term: gravity = -sum_b mass_b gravity.xipos_b ; joint = sum of joint spring potentials ;
+  tendon = sum of tendon spring potentials (dead band [lower, upper])"""
+  g = 0.0
   for b in range(1, mjm.nbody):
-    e = arith("-", e, arith("*", p.get("body_mass", w, b), EX.dot(grav, p.get("xipos", w, b))))
+    g = arith("-", g, o.a("*", p.get("body_mass", w, b), o.dot(grav, p.get("xipos", w, b))))
+  e = 0.0
   for j in range(mjm.njnt):
     k, sp = p.get("jnt_stiffness", w, j), p.get("jnt_stiffnesspoly", w, j)
     qa, jt = int(mjm.jnt_qposadr[j]), int(mjm.jnt_type[j])
     q = lambda i: p.get("qpos", w, qa + i)
     qs = lambda i: p.get("qpos_spring", w, qa + i)
-    off = ite(And(cmp("==", k, 0), cmp("==", sp[0], 0), cmp("==", sp[1], 0)), 0.0, 1.0)
     if jt in (sl.JNT_SLIDE, sl.JNT_HINGE):
       e = arith("+", e, poly_pot(k, sp, arith("-", q(0), qs(0))))
     else:
       terms = []
       if jt == sl.JNT_FREE:
         d0 = [arith("-", q(i), qs(i)) for i in range(3)]
-        terms.append(EX.dot(d0, d0))
+        terms.append(sqr(o.dot(d0, d0)))
         qq, qr = [q(3 + i) for i in range(4)], [qs(3 + i) for i in range(4)]
       else:
         qq, qr = [q(i) for i in range(4)], [qs(i) for i in range(4)]
       d1 = quat_sub(qq, qr)
-      terms.append(EX.dot(d1, d1))
+      terms.append(sqr(o.dot(d1, d1)))
       for t in terms:
-        e = arith("+", e, arith("*", arith("*", k, 0.5), t))
+        e = arith("+", e, o.a("*", arith("*", k, 0.5), t))
+  tn = 0.0
   for t in range(mjm.ntendon):
     k, sp, ls = p.get("tendon_stiffness", w, t), p.get("tendon_stiffnesspoly", w, t), p.get("tendon_lengthspring", w, t)
     L = p.get("ten_length", w, t)
     x = ite(cmp(">", L, ls[1]), arith("-", L, ls[1]), ite(cmp("<", L, ls[0]), arith("-", L, ls[0]), 0.0))
-    e = arith("+", e, poly_pot(k, sp, x))
-  return e
+    tn = arith("+", tn, poly_pot(k, sp, x))
+  return {"_energy_pos_gravity": g, "_energy_pos_passive_joint": e, "_energy_pos_passive_tendon": tn}
+
+
+def ref_energy_pos(mjm, p, w, grav, quat_sub=None):
+  parts = ref_energy_parts(mjm, p, w, grav, quat_sub)
+  return arith("+", arith("+", parts["_energy_pos_gravity"], parts["_energy_pos_passive_joint"]), parts["_energy_pos_passive_tendon"])
+
+
+def staged_energy_run(ctx, m2, d2, arrs, interp_kw=None, interp_cls=None):
+  """run the REAL energy_pos; before every launch the energy cell is snapshotted and replaced by a fresh variable, so each
+  kernel's contribution is decided separately (stage k: energy after == energy before + reference term k)."""
+  from mujoco_warp._src import sensor
+
+  cell = arrs["energy"].ref.cell
+  stages = []  # (kernel name, fresh 'before' values per world)
+
+  def on_launch(hr, kernel, dim, args):
+    if stages:
+      stages[-1]["after"] = [cell.d[0][w] for w in range(cell.shape[0])]
+    fresh = [z3.Real(f"E!{len(stages)}!{w}") for w in range(cell.shape[0])]
+    for w in range(cell.shape[0]):
+      cell.d[0][w] = fresh[w]
+    stages.append({"kernel": kernel.key.split(".")[-1], "before": fresh})
+
+  with sl.hostrun(interp_cls or sl.UInterp, mode="exec", on_launch=on_launch, interp_kw=interp_kw or {}) as hr:
+    sensor.energy_pos(m2, d2)
+  stages[-1]["after"] = [cell.d[0][w] for w in range(cell.shape[0])]
+  for e in hr.events:
+    if e.kind == "launch":
+      ctx.encode(e.kernel)
+  return hr, stages
+
+
+def prove_energy_stages(ctx, hr, stages, parts_of, expected, replay_of, nlsat=False, uf=False):
+  names = [st["kernel"] for st in stages]
+  if names != expected:
+    ctx.error(f"energy_pos launch sequence {names} differs from the expected {expected} (MuJoCo: zero, gravity, joint springs, tendon springs)")
+    return
+  goals = []
+  for w in range(2):
+    parts = parts_of(w)
+    for st in stages:
+      k = st["kernel"]
+      want = 0.0 if k == "_energy_pos_zero" else arith("+", st["before"][w], parts[k])
+      goals.append((w, k, z3.simplify(core.to_z3(arith("-", st["after"][w], want), "real"), som=True) == 0))
+  bg = [core.zbool(a) for a in hr.assumes]
+  if uf:
+    bg += sl.comm_axioms(bg + [g for _, _, g in goals])
+  if nlsat:
+    # uninterpreted applications -> fresh constants (sound for `unsat`), then the pure nlsat procedure
+    allx = sl.abstract_ufs(bg + [g for _, _, g in goals])
+    bg, goals = allx[: len(bg)], [(w, k, g) for (w, k, _), g in zip(goals, allx[len(bg) :])]
+  sess = sl.oneshot(ctx, bg, tactic="qfnra-nlsat" if nlsat else None)
+  ctx.reach(sess, "twin:state", True)
+  for w, k, g in goals:
+    ctx.prove(sess, f"potential[{w}]/{k}", g, replay=replay_of(w), desc=f"energy_pos: contribution of {k} to the potential energy of world {w} differs from mj_energyPos")
 
 
 def validate_energy(ctx, seed):
@@ -684,7 +836,7 @@ def validate_energy(ctx, seed):
   return True
 
 
-def energy_replay(ctx, xml, symM, symD, w, exact=True):
+def energy_replay(ctx, xml, symM, symD, w, symG, exact=True):
   def _rp(model):
     import mujoco
 
@@ -706,6 +858,9 @@ def energy_replay(ctx, xml, symM, symD, w, exact=True):
       getattr(mjm, n)[:] = inputs[n][w % inputs[n].shape[0]].reshape(getattr(mjm, n).shape)
     for n in symD:
       getattr(d, n).assign(inputs[n].astype(np.float32))
+    g = sl.model_array(model, symG["gravity"], clip=50.0)
+    m.opt.gravity = wp.array(g.astype(np.float32), dtype=wp.vec3)
+    mjm.opt.gravity[:] = g[w % g.shape[0]]
     sensor.energy_pos(m, d)
     got = float(d.energy.numpy()[w][0])
     mjd = mujoco.MjData(mjm)
@@ -725,58 +880,58 @@ def energy_replay(ctx, xml, symM, symD, w, exact=True):
 
 
 def unit_energy(ctx):
+  import dataclasses
+
+  import mujoco
+
+  import mujoco_warp as mjw
   from mujoco_warp._src import sensor
 
   if not validate_energy(ctx, ctx.seed):
     return
-  import mujoco
-
-  import mujoco_warp as mjw
-
   mjm = mujoco.MjModel.from_xml_string(ENERGY_XML)
   m = mjw.put_model(mjm)
   d = mjw.make_data(mjm, nworld=2)
   ctx.encode(sensor.energy_pos)
   ctx.bound(nworld=2, nbody=mjm.nbody, njnt=mjm.njnt, ntendon=mjm.ntendon, note="hinge / slide springs with polynomial stiffness, tendon springs with dead band, gravity; exact reals")
-  ctx.assume("masses, stiffness (linear and polynomial), spring references, tendon spring ranges, qpos, xipos, tendon lengths symbolic", "gravity and spring flags enabled")
+  ctx.assume("gravity, masses, stiffness (linear and polynomial), spring references, tendon spring ranges, qpos, xipos, tendon lengths symbolic", "gravity and spring flags enabled")
   m2 = sl.sym_fields(m, "m.", E_FLOATS, batch=2)
+  opt2 = sl.sym_fields(m.opt, "m.opt.", ["gravity"])
+  m2 = dataclasses.replace(m2, opt=opt2)
   d2 = host.shim_dataclass(d, "d.")
   arrs = host.arrays_of(d2)
   symM = {n: getattr(m2, n) for n in E_FLOATS}
   symD = {n: arrs[n] for n in ("qpos", "xipos", "ten_length")}
-  with host.HostRun(mode="exec") as hr:
-    sensor.energy_pos(m2, d2)
-  for e in hr.events:
-    if e.kind == "launch":
-      ctx.encode(e.kernel)
-  p = sl.P({**symM, **symD}, mjm)
-  sess = ctx.session([core.zbool(a) for a in hr.assumes])
-  ctx.reach(sess, "twin:state", True)
-  grav = [float(x) for x in mjm.opt.gravity]
+  symG = {"gravity": opt2.gravity}
+  kin0 = [sl.cell_vals(arrs["energy"], (w,), post=False)[1] for w in range(2)]
+  hr, stages = staged_energy_run(ctx, m2, d2, arrs)
+  p = sl.P({**symM, **symD, "gravity": opt2.gravity}, mjm)
+  prove_energy_stages(ctx, hr, stages, lambda w: ref_energy_parts(mjm, p, w, p.get("gravity", w)), ["_energy_pos_zero", "_energy_pos_gravity", "_energy_pos_passive_joint", "_energy_pos_passive_tendon"], lambda w: energy_replay(ctx, ENERGY_XML, symM, symD, w, symG))
+  sess = sl.oneshot(ctx, [core.zbool(a) for a in hr.assumes])
   for w in range(2):
-    want = ref_energy_pos(mjm, p, w, grav)
-    got = sl.cell_vals(arrs["energy"], (w,))[0]
-    ctx.prove(sess, f"potential[{w}]", cmp("==", got, want), replay=energy_replay(ctx, ENERGY_XML, symM, symD, w), desc=f"energy_pos: potential energy of world {w} differs from mj_energyPos")
-    ctx.prove(sess, f"kinetic-untouched[{w}]", cmp("==", sl.cell_vals(arrs["energy"], (w,))[1], sl.cell_vals(arrs["energy"], (w,), post=False)[1]), replay=lambda mdl: (False, "not replayed"), desc="energy_pos overwrites the kinetic energy slot")
+    ctx.prove(sess, f"kinetic-untouched[{w}]", cmp("==", sl.cell_vals(arrs["energy"], (w,))[1], kin0[w]), replay=lambda mdl: (False, "not replayed"), desc="energy_pos overwrites the kinetic energy slot")
 
 
 def unit_energy_ball(ctx):
   """free / ball joint springs: 1/2 k |quat_sub(normalize(q), q_spring)|^2 (+ translation for free); quat_sub shared uninterpreted"""
-  from mujoco_warp._src import math as mm
-  from mujoco_warp._src import sensor
+  import dataclasses
 
   import mujoco
 
   import mujoco_warp as mjw
+  from mujoco_warp._src import math as mm
+  from mujoco_warp._src import sensor
 
   mjm = mujoco.MjModel.from_xml_string(ENERGY_BALL_XML)
   m = mjw.put_model(mjm)
   d = mjw.make_data(mjm, nworld=2)
   ctx.encode(sensor.energy_pos)
   ctx.bound(nworld=2, note="free + ball joint springs, linear stiffness (polynomial coefficients 0)")
-  ctx.assume("math.quat_sub and wp.normalize are shared uninterpreted functions; wp.length(v)^2 = v.v", "polynomial stiffness coefficients are 0 for free / ball joints in this unit")
+  ctx.assume("math.quat_sub, wp.normalize (of quaternions), float products and sqrt are shared uninterpreted functions; the spring energy is compared as 1/2 k (sqrt(d.d))^2", "polynomial stiffness coefficients are 0 for free / ball joints in this unit")
   names = ["body_mass", "jnt_stiffness", "qpos_spring"]
   m2 = sl.sym_fields(m, "m.", names, batch=2)
+  opt2 = sl.sym_fields(m.opt, "m.opt.", ["gravity"])
+  m2 = dataclasses.replace(m2, opt=opt2)
   d2 = host.shim_dataclass(d, "d.")
   arrs = host.arrays_of(d2)
   R = z3.RealSort()
@@ -788,30 +943,21 @@ def unit_energy_ball(ctx):
     zs = [core.to_z3(x, "real") for x in list(qa) + list(qb)]
     return [z3.Function(f"quat_sub#{k}", *([R] * 8), R)(*zs) for k in range(3)]
 
-  class IP(core.Interp):
+  class IP(sl.UInterp):
     def builtin(self, fr, key, args, e):
       if key == "normalize" and isinstance(args[0], Vec) and len(args[0].c) == 4:
         return Vec(nrm(args[0].c), (4,), "quat")
       return super().builtin(fr, key, args, e)
 
   summ = {mm.quat_sub.key: lambda it, fr, args: Vec(qsub_uf(list(args[0].c), list(args[1].c)), (3,), "f")}
-  saved = host.Interp
-  host.Interp = IP
-  try:
-    with host.HostRun(mode="exec", interp_kw={"summaries": summ}) as hr:
-      sensor.energy_pos(m2, d2)
-  finally:
-    host.Interp = saved
+  hr, stages = staged_energy_run(ctx, m2, d2, arrs, interp_kw={"summaries": summ, "float_uf": True}, interp_cls=IP)
   symM = {n: getattr(m2, n) for n in names}
   symD = {n: arrs[n] for n in ("qpos", "xipos")}
-  src = {**symM, **symD, "jnt_stiffnesspoly": np.zeros((1, mjm.njnt, 2)), "tendon_stiffness": np.zeros((1, 0))}
+  src = {**symM, **symD, "gravity": opt2.gravity, "jnt_stiffnesspoly": np.zeros((1, mjm.njnt, 2)), "tendon_stiffness": np.zeros((1, 0))}
   p = sl.P(src, mjm)
-  sess = ctx.session([core.zbool(a) for a in hr.assumes], tactic="qfnra-nlsat" if False else None)
-  ctx.reach(sess, "twin:state", True)
-  for w in range(2):
-    want = ref_energy_pos(mjm, p, w, [float(x) for x in mjm.opt.gravity], lambda qa, qb: qsub_uf(nrm(qa), qb))
-    got = sl.cell_vals(arrs["energy"], (w,))[0]
-    ctx.prove(sess, f"potential[{w}]", cmp("==", got, want), replay=lambda mdl: (False, "structure-only query (quat_sub uninterpreted)"), desc=f"energy_pos: free / ball spring energy of world {w} differs from mj_energyPos")
+  fsq = z3.Function("fsqrt", R, R)
+  sqr = lambda t: (lambda r: sl.UFO.a("*", r, r))(fsq(core.to_z3(t, "real")))  # (sqrt(t))^2 with products / sqrt uninterpreted
+  prove_energy_stages(ctx, hr, stages, lambda w: ref_energy_parts(mjm, p, w, p.get("gravity", w), lambda qa, qb: qsub_uf(nrm(qa), qb), o=sl.UFO, sqr=sqr), ["_energy_pos_zero", "_energy_pos_gravity", "_energy_pos_passive_joint"], lambda w: (lambda mdl: (False, "structure-only query (quat_sub uninterpreted)")), uf=True)
 
 
 def main(tier, seed, only=None):
